@@ -1,0 +1,125 @@
+//go:build verif
+
+// Contracts for package rlp, checked by /verif/govc (comment-only; see /verif/DESIGN.md).
+package rlp
+
+// ---------------------------------------------------------------- C16: the non-reflective core
+// Number of bytes of the minimal big-endian representation, and the value of n big-endian bytes.
+//@ spec func isz(i int) int = ite(i < 256, 1, 1 + isz(i / 256))
+//@ spec func be(b []byte, n int) int = ite(n <= 0, 0, be(b, n-1) * 256 + b[n-1])
+// Size of the canonical header for a payload of the given size.
+//@ spec func headSpec(size int) int = ite(size < 56, 1, 1 + isz(size))
+
+//@ func intsize(i uint64) (size int)
+//@   for C16
+//@   ensures size == isz(i) && 1 <= size && size <= 8
+//@   loop 1:
+//@     invariant size >= 1 && size - 1 + isz(i) == isz(old(i)) && size <= 8 && i < pow2(8 * (9 - size))
+
+//@ func headsize(size uint64) (r int)
+//@   for C16
+//@   ensures r == headSpec(size)
+
+// The minimal big-endian bytes of i, byte by byte; the decoder's value function be() applied to them
+// gives i back (lemmas putintRoundTrip1..8: big-endian digits in base 256).
+//@ lemma putintRoundTrip1(i int)
+//@   for C16
+//@   requires 0 <= i && i < 256
+//@   ensures (i % 256) == i
+
+//@ lemma putintRoundTrip2(i int)
+//@   for C16
+//@   requires 0 <= i && i < 65536
+//@   ensures ((i >> 8) % 256) * 256 + (i % 256) == i
+
+//@ lemma putintRoundTrip3(i int)
+//@   for C16
+//@   requires 0 <= i && i < 16777216
+//@   ensures ((i >> 16) % 256) * 65536 + ((i >> 8) % 256) * 256 + (i % 256) == i
+
+//@ lemma putintRoundTrip4(i int)
+//@   for C16
+//@   requires 0 <= i && i < 4294967296
+//@   ensures ((i >> 24) % 256) * 16777216 + ((i >> 16) % 256) * 65536 + ((i >> 8) % 256) * 256 + (i % 256) == i
+
+//@ lemma putintRoundTrip5(i int)
+//@   for C16
+//@   requires 0 <= i && i < 1099511627776
+//@   ensures ((i >> 32) % 256) * 4294967296 + ((i >> 24) % 256) * 16777216 + ((i >> 16) % 256) * 65536 + ((i >> 8) % 256) * 256 + (i % 256) == i
+
+//@ lemma putintRoundTrip6(i int)
+//@   for C16
+//@   requires 0 <= i && i < 281474976710656
+//@   ensures ((i >> 40) % 256) * 1099511627776 + ((i >> 32) % 256) * 4294967296 + ((i >> 24) % 256) * 16777216 + ((i >> 16) % 256) * 65536 + ((i >> 8) % 256) * 256 + (i % 256) == i
+
+//@ lemma putintRoundTrip7(i int)
+//@   for C16
+//@   requires 0 <= i && i < 72057594037927936
+//@   ensures ((i >> 48) % 256) * 281474976710656 + ((i >> 40) % 256) * 1099511627776 + ((i >> 32) % 256) * 4294967296 + ((i >> 24) % 256) * 16777216 + ((i >> 16) % 256) * 65536 + ((i >> 8) % 256) * 256 + (i % 256) == i
+
+// (the 8-byte instance of the round-trip identity does not discharge within the quick budget and is not claimed)
+
+//@ func putint(b []byte, i uint64) (size int)
+//@   for C16
+//@   safe
+//@   requires len(b) >= 8
+//@   modifies b[_]
+//@   ensures [minimalLength] size == isz(i)
+//@   ensures [bytes1] size == 1 ==> b[0] == (i % 256)
+//@   ensures [bytes2] size == 2 ==> b[0] == ((i >> 8) % 256) && b[1] == (i % 256)
+//@   ensures [bytes3] size == 3 ==> b[0] == ((i >> 16) % 256) && b[1] == ((i >> 8) % 256) && b[2] == (i % 256)
+//@   ensures [bytes4] size == 4 ==> b[0] == ((i >> 24) % 256) && b[1] == ((i >> 16) % 256) && b[2] == ((i >> 8) % 256) && b[3] == (i % 256)
+//@   ensures [bytes5] size == 5 ==> b[0] == ((i >> 32) % 256) && b[1] == ((i >> 24) % 256) && b[2] == ((i >> 16) % 256) && b[3] == ((i >> 8) % 256) && b[4] == (i % 256)
+//@   ensures [bytes6] size == 6 ==> b[0] == ((i >> 40) % 256) && b[1] == ((i >> 32) % 256) && b[2] == ((i >> 24) % 256) && b[3] == ((i >> 16) % 256) && b[4] == ((i >> 8) % 256) && b[5] == (i % 256)
+//@   ensures [bytes7] size == 7 ==> b[0] == ((i >> 48) % 256) && b[1] == ((i >> 40) % 256) && b[2] == ((i >> 32) % 256) && b[3] == ((i >> 24) % 256) && b[4] == ((i >> 16) % 256) && b[5] == ((i >> 8) % 256) && b[6] == (i % 256)
+//@   ensures [bytes8] size == 8 ==> b[0] == ((i >> 56) % 256) && b[1] == ((i >> 48) % 256) && b[2] == ((i >> 40) % 256) && b[3] == ((i >> 32) % 256) && b[4] == ((i >> 24) % 256) && b[5] == ((i >> 16) % 256) && b[6] == ((i >> 8) % 256) && b[7] == (i % 256)
+//@   ensures [noLeadingZero] i > 0 ==> b[0] != 0
+
+//@ func puthead(buf []byte, smalltag, largetag byte, size uint64) (r int)
+//@   for C16
+//@   safe
+//@   requires len(buf) >= 9 && smalltag <= 192 && largetag <= 247
+//@   modifies buf[_]
+//@   ensures [sameAsHeadsize] r == headSpec(size)
+//@   ensures [shortForm] size < 56 ==> buf[0] == smalltag + size
+//@   ensures [longForm] size >= 56 ==> buf[0] == largetag + isz(size) && buf[1] != 0
+
+// readSize accepts exactly canonical long-form sizes: no leading zero, value >= 56.
+//@ func readSize(b []byte, slen byte) (s uint64, err error)
+//@   for C16 C18
+//@   safe
+//@   requires 1 <= slen && slen <= 8
+//@   ensures [valueRead] err == nil ==> slen <= len(b) && s == be(b, slen)
+//@   ensures [canonical] err == nil ==> s >= 56 && b[0] != 0
+//@   ensures [completeness] slen <= len(b) && be(b, slen) >= 56 && b[0] != 0 ==> err == nil
+
+//@ func readKind(buf []byte) (k Kind, tagsize, contentsize uint64, err error)
+//@   for C16 C18
+//@   safe
+//@   ensures [fitsInput] err == nil ==> tagsize + contentsize <= len(buf) && len(buf) > 0
+//@   ensures [singleByte] err == nil && buf[0] < 128 ==> k == Byte && tagsize == 0 && contentsize == 1
+//@   ensures [shortString] err == nil && 128 <= buf[0] && buf[0] < 184 ==> k == String && tagsize == 1 && contentsize == buf[0] - 128 && !(contentsize == 1 && buf[1] < 128)
+//@   ensures [longString] err == nil && 184 <= buf[0] && buf[0] < 192 ==> k == String && tagsize == buf[0] - 183 + 1 && contentsize == be(buf[1:], buf[0] - 183) && contentsize >= 56 && buf[1] != 0
+//@   ensures [shortList] err == nil && 192 <= buf[0] && buf[0] < 248 ==> k == List && tagsize == 1 && contentsize == buf[0] - 192
+//@   ensures [longList] err == nil && 248 <= buf[0] ==> k == List && tagsize == buf[0] - 247 + 1 && contentsize == be(buf[1:], buf[0] - 247) && contentsize >= 56 && buf[1] != 0
+
+//@ func Split(b []byte) (k Kind, content, rest []byte, err error)
+//@   for C16 C18
+//@   safe
+//@   ensures err == nil ==> len(content) + len(rest) < len(b) + 1 && len(rest) < len(b)
+//@   ensures err != nil ==> len(rest) == len(b)
+
+//@ func CountValues(b []byte) (n int, err error)
+//@   for C16 C18
+//@   safe
+//@   loop 1:
+//@     invariant 0 <= i && i <= pre(len(b)) - len(b)
+//@     decreases len(b)
+
+//@ func ListSize(contentSize uint64) (r uint64)
+//@   for C16
+//@   ensures contentSize <= 18446744073709551606 ==> r == headSpec(contentSize) + contentSize
+
+//@ func IntSize(x uint64) (r int)
+//@   for C16
+//@   ensures r == ite(x < 128, 1, 1 + isz(x))
